@@ -22,7 +22,8 @@ FUNCTIONS = ["strax.chunk.Chunk.__init__", "strax.plugins.plugin.Plugin._check_d
 BOUNDS = {
     "quick": "runs of 3 chunks, offending chunk index symbolic in 0..2; plugin kinds source / ordinary / multi-output / "
              "down-chunking / loop / cut / overlap-window; violation kinds: wrong dtype (extra field, missing field, "
-             "narrower int) as bare array and wrapped in a chunk, titled vs untitled dtype (must be accepted), rows "
+             "narrower int) as bare array, wrapped in a chunk that declares the plugin's dtype, and wrapped in a chunk "
+             "that declares the wrong dtype itself, titled vs untitled dtype (must be accepted), rows "
              "outside the chunk (1-3 time-sorted rows, symbolic times with end times in any order, symbolic bounds), wrong data_type label, gap / overlap between target "
              "chunks (symbolic), non-dict from a multi-output plugin, non-chunk from a down-chunking plugin; both "
              "processors",
@@ -83,8 +84,10 @@ def _violating_plugin(pkind, vkind, variant, k, wrap):
             return strax.Chunk(start=start, end=end, run_id=RUN, data_kind="kv", data_type="something_else",
                                dtype=good_dtype, data=arr)
         if wrap:
+            # wrap == "own": the chunk DECLARES the wrong dtype itself (consistent with its data); otherwise it
+            # declares the plugin's dtype and carries data of another one
             return strax.Chunk(start=start, end=end, run_id=RUN, data_kind=self.data_kind_for(data_type),
-                               data_type=data_type, dtype=self.dtype_for(data_type), data=arr)
+                               data_type=data_type, dtype=d if wrap == "own" else self.dtype_for(data_type), data=arr)
         return arr
 
     if pkind == "ordinary":
@@ -145,7 +148,7 @@ def _violating_plugin(pkind, vkind, variant, k, wrap):
     return V
 
 
-def _violating_source(vkind, variant, k):
+def _violating_source(vkind, variant, k, wrap=True):
     import strax
 
     class VS(strax.Plugin):
@@ -167,7 +170,7 @@ def _violating_source(vkind, variant, k):
                 d = TITLED
             dt_label = "something_else" if (bad and vkind == "label") else "vv"
             return strax.Chunk(start=LAY.bounds[chunk_i], end=LAY.bounds[chunk_i + 1], run_id=RUN, data_kind="kv",
-                               data_type=dt_label, dtype=GOOD, data=_mk(d, rows))
+                               data_type=dt_label, dtype=d if wrap == "own" else GOOD, data=_mk(d, rows))
 
     return VS
 
@@ -179,7 +182,7 @@ def _run_table(pkind, vkind, variant, k, wrap, proc):
     MemFrontend, _, _ = ctx.make_storage_classes()
     fe = MemFrontend()
     if pkind == "source":
-        P = [_violating_source(vkind, variant, k)]
+        P = [_violating_source(vkind, variant, k, wrap)]
     else:
         P = [ctx.P_source("src", "ksrc", LAY, False, save_when=strax.SaveWhen.NEVER),
              ctx.P_source("src2", "ksrc2", LAY, False, save_when=strax.SaveWhen.NEVER),
@@ -398,6 +401,9 @@ def _grid(tier):
             for var in ("extra", "missing", "narrow"):
                 g.append(dict(pkind=pk, vkind="dtype", variant=var, wrap=True, proc=proc))
             g.append(dict(pkind=pk, vkind="label", wrap=True, proc=proc))
+            if proc == "single":
+                for var in ("extra", "narrow"):
+                    g.append(dict(pkind=pk, vkind="dtype", variant=var, wrap="own", proc=proc))
         g.append(dict(pkind="multi", vkind="nondict", proc=proc))
         g.append(dict(pkind="down", vkind="nonchunk", proc=proc))
         g.append(dict(pkind="loop", vkind="nondict", proc=proc))
